@@ -157,6 +157,12 @@ func c01Property(t *rapid.T, rec *evid.Rec, st *stack.Stack, sc stackCase, maxSt
 			t.Fatalf("C01 %s step %d %s: %s\nsequence: %s", sc, i, c, msg, strings.Join(cmdsString(cmds), " | "))
 		}
 		for i := 0; i < n; i++ {
+			// now and then the metrics endpoint is scraped between two commands, as a
+			// monitoring system does (in-process stacks only; nothing of it is compared)
+			if tag == "" && rapid.IntRange(0, 24).Draw(t, "scrape") == 0 {
+				readMetricsNoGC()
+				classes["metrics-scraped-between-commands"] = true
+			}
 			now := nowUnix()
 			c := genCmd(t, opts, now)
 			cmds = append(cmds, c)
